@@ -4,7 +4,7 @@ from harness import o_c06
 
 PROP = dict(
     groups=[],
-    obligations=[obl('C19.request_forms', oracle=[o_c06.batch_for('riemann2D'), o_c06.r2d_fan_order])],
+    obligations=[obl('C19.request_forms', oracle=[o_c06.batch_for('riemann2D'), o_c06.r2d_fan_order, o_c06.r2d_direction_continuity])],
     corr_models=[],
     scope='The theorems of this property are statements about points; the steady 2-D Riemann are called here with the same points in other '
           'forms (shuffled, reversed, inside another batch, duplicated, alone, as an integer array, through one array object that is '
